@@ -87,7 +87,7 @@ static Position mkpos(float x, float y) { Position p; p.x = x; p.y = y; return p
    'subs':[[r'\bthis\b', 'self', 0], [r'map\.size\(\)', 'SlotMap_size_0(map)', 0], [r'map\[idx\]', 'SlotMap_at(map, idx)', 0], [r'map\.dir\(\)', 'SlotMap_dir_0(map)', 0],
            [r'Position\(advance\(\), 0\)', 'mkpos(Slot_advance_0(self), 0)', 0], [r'Position\(other->advance\(\), 0\)', 'mkpos(Slot_advance_0(other), 0)', 0],
            [r'(?<![\w>.])attachTo\(', 'Slot_attachTo_1(self, ', 0]],
-   'methods':['isCopied','removeChild','attachedTo','child'],
+   'methods':['isCopied','removeChild','attachedTo','child','isBase','nextSibling','firstChild','sibling','isDeleted'],
    'self':['m_parent','m_child','m_sibling','m_with','m_attach']}@*/
 #endif
 
